@@ -439,19 +439,24 @@ func c11Check(c c11Case, x *vsched.Exec, initial bool, st *c11State, retd bool, 
 		"task=permission": true, "task=other": true}
 	// What decides is the cause that tore the task down (or failed the very first dial): a
 	// failure of a re-dial *inside* a back-off loop that is not itself recoverable is a
-	// don't-care (the statement bounds the loop, it does not say which in-loop failures end it).
+	// not a new cause: the task "is re-established with bounded back-off (at most 50 attempts)",
+	// so the loop goes on to its next attempt whatever kind of failure one attempt reports.
 	if c.Script == "" {
 		pending, nattempt, inLoop := "", 0, false
+		loopFail, nLoop := "", 0
 	classify:
 		for _, e := range x.Log {
 			switch e.Kind {
 			case "cancel":
 				break classify
 			case "task":
-				inLoop = false // the dial succeeded completely: the task runs
+				inLoop, loopFail, nLoop = false, "", 0 // the dial succeeded completely: the task runs
 			case "answer":
 				if recoverable[e.Detail] || (fatal[e.Detail] && !inLoop) {
 					pending = e.Detail
+				}
+				if fatal[e.Detail] && inLoop {
+					loopFail = e.Detail
 				}
 			case "attempt":
 				nattempt++
@@ -461,10 +466,16 @@ func c11Check(c c11Case, x *vsched.Exec, initial bool, st *c11State, retd bool, 
 				if pending != "" {
 					inLoop = true
 				}
-				pending = ""
+				if inLoop {
+					nLoop++
+				}
+				pending, loopFail = "", ""
 			case "returned":
 				if recoverable[pending] && nattempt <= 50 && !strings.Contains(e.Detail, "failed to clean up") {
 					bad("C10:classification:gave-up-recoverable", "after %q (a recoverable cause) Dial returned %s instead of dialling again", pending, e.Detail)
+				}
+				if loopFail != "" && pending == "" && nLoop < 50 && e.Detail != "<nil>" && !strings.Contains(e.Detail, "failed to clean up") {
+					bad("C10:classification:gave-up-inside-back-off", "the task failed for a recoverable cause; re-dial attempt %d of at most 50 failed with %q and Dial returned %s instead of going on to the next attempt", nLoop, loopFail, e.Detail)
 				}
 				if fatal[pending] && e.Detail == "<nil>" {
 					bad("C10:classification:fatal-not-reported", "after %q Dial returned nil", pending)
